@@ -27,7 +27,7 @@ def run(ctx):
                 'vectors; non-trivial := f1 > 0 and the value differs from S_obs; set measures: all pairs of small '
                 'collections over a 5-token pool as list/tuple/set/Series with duplicates and missing values; '
                 'non-trivial := intersection non-empty and the two element sets differ')
-    L, M = (4, 4) if ctx.quick else (4, 7)
+    L, M = (4, 4) if ctx.quick else (5, 6)
     vecs = [list(v) for n in range(1, L + 1) for v in itertools.product(range(M + 1), repeat=n)]
     for _ in range(200 if ctx.quick else 3000):
         n = rng.randint(1, 30)
